@@ -2,6 +2,7 @@ package main
 
 import (
 	"go/ast"
+	"go/token"
 	"strings"
 )
 
@@ -91,13 +92,29 @@ func extractAllocHandles(x *extractor) {
 	allocBefore := before(pw, "handle := rs.nextRequest(request) rpkt = request.opendir(rs.Handlers, pkt)", "zzzz-never") ||
 		(strings.Contains(pw, "handle := rs.nextRequest(request) rpkt = request.opendir(rs.Handlers, pkt)") &&
 			strings.Contains(pw, "handle := rs.nextRequest(request) rpkt = request.open(rs.Handlers, pkt)"))
+	// The final sweep of Serve, read off the AST of `for k, v := range <table>` (after wg.Wait()):
+	//   closes   the loop body has the statement `v.close()` / `v.Close()` at its top level
+	//   deletes  … and the statement `delete(<table>, k)`
+	//   notifies … and the statement `v.transferError(err)` in front of the close
 	serveOS := body("Server.Serve")
-	sweepOS := strings.Contains(serveOS, "for handle, file := range svr.openFiles {") && strings.Contains(serveOS, "file.Close() }") &&
-		before(serveOS, "wg.Wait()", "for handle, file := range svr.openFiles {")
+	swOS := ahSweep(pi, u, "Server.Serve", "svr.openFiles", "Close")
+	sweepOS := swOS.closes && before(serveOS, "wg.Wait()", "range svr.openFiles {")
 	serveRS := body("RequestServer.Serve")
-	sweepRS := strings.Contains(serveRS, "for handle, req := range rs.openRequests {") && strings.Contains(serveRS, "delete(rs.openRequests, handle) req.close() }") &&
-		before(serveRS, "wg.Wait()", "for handle, req := range rs.openRequests {")
-	terrRS := before(serveRS, "req.transferError(err)", "delete(rs.openRequests, handle) req.close()")
+	swRS := ahSweep(pi, u, "RequestServer.Serve", "rs.openRequests", "close")
+	sweepRS := swRS.closes && before(serveRS, "wg.Wait()", "range rs.openRequests {")
+	terrRS := swRS.notifiesBeforeClose
+	if swOS.notifies || strings.Contains(serveOS, "ransferError") {
+		u.fail("Server.Serve: mentions a transfer error notification (the os-backed server has none)")
+	}
+	// Request.transferError: which objects are told
+	notifyRS := ahNotifyKinds(pi, u)
+	// packetWorker `case hasHandle`: is every request.call behind `!request.servesPacket(pkt)`?
+	useKindRS := ahUseKindChecked(pi, u)
+	useKindOS := false
+	if strings.Contains(body("handlePacket"), "servesPacket(") {
+		u.fail("handlePacket: mentions servesPacket (the os-backed server has no kind check in front of the file call)")
+		useKindOS = true
+	}
 	// the counters are only ever incremented
 	mono := func(field string) bool {
 		n, incs := 0, 0
@@ -138,10 +155,324 @@ func extractAllocHandles(x *extractor) {
 	reqClose := body("Request.close")
 	cancels := strings.Contains(reqClose, "if r.cancelCtx != nil { r.cancelCtx() }") && strings.Contains(body("requestFromPacket"), "request.ctx, request.cancelCtx = context.WithCancel(ctx)")
 	u.pf("-- source: server.go closeHandle/nextHandle/Serve, request-server.go closeRequest/nextRequest/packetWorker/Serve, request.go close\n")
-	u.pf("def handlesCfgRS : Sftp.Handles.Cfg := { deleteOnClose := %s, closeOnFailedOpen := %s, sweepClosesAll := %s, sweepNotifiesTransferError := %s, counterMonotone := %s, allocBeforeOpen := %s }\n",
-		leanBool(delRS), leanBool(failedOpen), leanBool(sweepRS), leanBool(terrRS), leanBool(monoOK && itoa), leanBool(allocBefore))
-	u.pf("def handlesCfgOS : Sftp.Handles.Cfg := { deleteOnClose := %s, closeOnFailedOpen := true, sweepClosesAll := %s, sweepNotifiesTransferError := false, counterMonotone := %s, allocBeforeOpen := %s }\n",
-		leanBool(delOS), leanBool(sweepOS), leanBool(monoOK && itoa), leanBool(!osAllocAfter))
+	u.pf("def handlesCfgRS : Sftp.Handles.Cfg := { deleteOnClose := %s, closeOnFailedOpen := %s, sweepClosesAll := %s, sweepNotifiesTransferError := %s, counterMonotone := %s, allocBeforeOpen := %s, sweepEmptiesTable := %s, notifyKinds := %s, useKindChecked := %s }\n",
+		leanBool(delRS), leanBool(failedOpen), leanBool(sweepRS), leanBool(terrRS), leanBool(monoOK && itoa), leanBool(allocBefore),
+		leanBool(swRS.deletes), notifyRS, leanBool(useKindRS))
+	u.pf("def handlesCfgOS : Sftp.Handles.Cfg := { deleteOnClose := %s, closeOnFailedOpen := true, sweepClosesAll := %s, sweepNotifiesTransferError := false, counterMonotone := %s, allocBeforeOpen := %s, sweepEmptiesTable := %s, notifyKinds := [], useKindChecked := %s }\n",
+		leanBool(delOS), leanBool(sweepOS), leanBool(monoOK && itoa), leanBool(!osAllocAfter), leanBool(swOS.deletes), leanBool(useKindOS))
 	u.pf("def requestCloseCancelsContext : Bool := %s\n", leanBool(cancels))
 	u.pf("\nend Sftp.G\n")
+}
+
+// ---- handle tables: AST matchers of the three facts the text matchers above cannot separate ----
+
+type ahSweepFacts struct {
+	found, closes, deletes, notifies, notifiesBeforeClose bool
+}
+
+// ahSweep reads the loop `for k, v := range <table> { … }` at the top level of fn's body.
+func ahSweep(pi *pkgInfo, u *unit, fn, table, closeName string) ahSweepFacts {
+	var f ahSweepFacts
+	fd := pi.funcDecl(fn)
+	if fd == nil || fd.Body == nil {
+		return f // already reported by body()
+	}
+	var loop *ast.RangeStmt
+	for _, s := range fd.Body.List {
+		if r, ok := s.(*ast.RangeStmt); ok && pi.nodeText(r.X) == table {
+			if loop != nil {
+				u.fail("%s: more than one loop over %s at %s", fn, table, pi.pos(r))
+			}
+			loop = r
+		}
+	}
+	if loop == nil {
+		return f
+	}
+	f.found = true
+	k, v := "", ""
+	if loop.Key != nil {
+		k = pi.nodeText(loop.Key)
+	}
+	if loop.Value != nil {
+		v = pi.nodeText(loop.Value)
+	}
+	closeAt, notifyAt := -1, -1
+	for i, s := range loop.Body.List {
+		switch pi.nodeText(s) {
+		case v + "." + closeName + "()":
+			if v != "" && closeAt < 0 {
+				closeAt = i
+			}
+		case "delete(" + table + ", " + k + ")":
+			if k != "" && k != "_" {
+				f.deletes = true
+			}
+		case v + ".transferError(err)":
+			if v != "" && notifyAt < 0 {
+				notifyAt = i
+			}
+		}
+	}
+	f.closes = closeAt >= 0
+	f.notifies = notifyAt >= 0
+	f.notifiesBeforeClose = notifyAt >= 0 && (closeAt < 0 || notifyAt < closeAt)
+	// anything else in the function that empties or replaces the table, or a delete that is not the plain
+	// top-level statement of the loop, is not a recognised shape
+	ast.Inspect(fd.Body, func(n ast.Node) bool {
+		switch t := n.(type) {
+		case *ast.AssignStmt:
+			for _, l := range t.Lhs {
+				if pi.nodeText(l) == table {
+					u.fail("%s: assigns %s at %s", fn, table, pi.pos(t))
+				}
+			}
+		case *ast.CallExpr:
+			name := exprString(t.Fun)
+			if (name == "delete" || name == "clear") && len(t.Args) >= 1 && pi.nodeText(t.Args[0]) == table {
+				if !(name == "delete" && f.deletes && pi.nodeText(t) == "delete("+table+", "+k+")" && ahIsTopLevelOf(loop, t)) {
+					u.fail("%s: %s on %s outside the recognised sweep statement at %s", fn, name, table, pi.pos(t))
+				}
+			}
+			if strings.HasSuffix(name, ".transferError") && !(f.notifies && ahIsTopLevelOf(loop, t)) {
+				u.fail("%s: transferError call outside the recognised sweep statement at %s", fn, pi.pos(t))
+			}
+		}
+		return true
+	})
+	return f
+}
+
+// ahIsTopLevelOf: is the call the expression of one of the loop body's own statements?
+func ahIsTopLevelOf(loop *ast.RangeStmt, c *ast.CallExpr) bool {
+	for _, s := range loop.Body.List {
+		if es, ok := s.(*ast.ExprStmt); ok && es.X == c {
+			return true
+		}
+	}
+	return false
+}
+
+// ahNotifyKinds: Request.transferError as
+//
+//	if err == nil { return }
+//	a, b, c := r.getAllReaderWriters()          (state.getAllReaderWriters: `return s.f1, s.f2, s.f3`)
+//	if t, ok := X.(TransferError); ok { t.TransferError(err) }   …
+//
+// with X one of the tuple's variables, `r.<field>` / `r.state.<field>`, or `r.getListerAt()` (`return s.listerAt`).
+// Result: the Lean list of the kinds told, in the order reader, writer, readerWriter, lister.
+func ahNotifyKinds(pi *pkgInfo, u *unit) string {
+	kindOf := map[string]string{"readerAt": ".reader", "writerAt": ".writer", "writerAtReaderAt": ".readerWriter", "listerAt": ".lister"}
+	fd := pi.funcDecl("Request.transferError")
+	if fd == nil || fd.Body == nil {
+		u.fail("Request.transferError not found")
+		return "[]"
+	}
+	r := ""
+	if fd.Recv != nil && len(fd.Recv.List) == 1 && len(fd.Recv.List[0].Names) == 1 {
+		r = fd.Recv.List[0].Names[0].Name
+	}
+	errName := ""
+	if fd.Type.Params != nil && len(fd.Type.Params.List) == 1 && len(fd.Type.Params.List[0].Names) == 1 {
+		errName = fd.Type.Params.List[0].Names[0].Name
+	}
+	if r == "" || errName == "" {
+		u.fail("Request.transferError: receiver / parameter not named at %s", pi.pos(fd))
+		return "[]"
+	}
+	// accessor → the state fields it returns, in order
+	accessor := func(name string) []string {
+		g := pi.funcDecl("state." + name)
+		if g == nil || g.Body == nil || len(g.Body.List) == 0 {
+			return nil
+		}
+		s := ""
+		if g.Recv != nil && len(g.Recv.List) == 1 && len(g.Recv.List[0].Names) == 1 {
+			s = g.Recv.List[0].Names[0].Name
+		}
+		rt, ok := g.Body.List[len(g.Body.List)-1].(*ast.ReturnStmt)
+		if !ok || s == "" {
+			return nil
+		}
+		// the statements in front may only take the lock
+		for _, st := range g.Body.List[:len(g.Body.List)-1] {
+			switch pi.nodeText(st) {
+			case s + ".mu.RLock()", "defer " + s + ".mu.RUnlock()", s + ".mu.Lock()", "defer " + s + ".mu.Unlock()":
+			default:
+				return nil
+			}
+		}
+		var out []string
+		for _, e := range rt.Results {
+			t := pi.nodeText(e)
+			if !strings.HasPrefix(t, s+".") || kindOf[strings.TrimPrefix(t, s+".")] == "" {
+				return nil
+			}
+			out = append(out, strings.TrimPrefix(t, s+"."))
+		}
+		return out
+	}
+	vars := map[string]string{} // local variable → state field
+	told := map[string]bool{}
+	guard := false
+	for i, st := range fd.Body.List {
+		txt := pi.nodeText(st)
+		if i == 0 && txt == "if "+errName+" == nil { return }" {
+			guard = true
+			continue
+		}
+		if as, ok := st.(*ast.AssignStmt); ok && as.Tok == token.DEFINE && len(as.Rhs) == 1 {
+			if c, ok := as.Rhs[0].(*ast.CallExpr); ok && len(c.Args) == 0 && strings.HasPrefix(exprString(c.Fun), r+".") {
+				fields := accessor(strings.TrimPrefix(exprString(c.Fun), r+"."))
+				if fields != nil && len(fields) == len(as.Lhs) {
+					for j, l := range as.Lhs {
+						vars[pi.nodeText(l)] = fields[j]
+					}
+					continue
+				}
+			}
+			u.fail("Request.transferError: unrecognised definition at %s: %q", pi.pos(st), txt)
+			continue
+		}
+		is, ok := st.(*ast.IfStmt)
+		field := ""
+		if ok && is.Else == nil && is.Init != nil {
+			if as, ok := is.Init.(*ast.AssignStmt); ok && as.Tok == token.DEFINE && len(as.Lhs) == 2 && len(as.Rhs) == 1 {
+				if ta, ok := as.Rhs[0].(*ast.TypeAssertExpr); ok && ta.Type != nil && pi.nodeText(ta.Type) == "TransferError" &&
+					pi.nodeText(is.Cond) == pi.nodeText(as.Lhs[1]) && len(is.Body.List) == 1 &&
+					pi.nodeText(is.Body.List[0]) == pi.nodeText(as.Lhs[0])+".TransferError("+errName+")" {
+					x := pi.nodeText(ta.X)
+					switch {
+					case vars[x] != "":
+						field = vars[x]
+					case strings.HasPrefix(x, r+".state.") && kindOf[strings.TrimPrefix(x, r+".state.")] != "":
+						field = strings.TrimPrefix(x, r+".state.")
+					case strings.HasPrefix(x, r+".") && kindOf[strings.TrimPrefix(x, r+".")] != "":
+						field = strings.TrimPrefix(x, r+".")
+					case strings.HasPrefix(x, r+".") && strings.HasSuffix(x, "()"):
+						if fs := accessor(strings.TrimSuffix(strings.TrimPrefix(x, r+"."), "()")); len(fs) == 1 {
+							field = fs[0]
+						}
+					}
+				}
+			}
+		}
+		if field == "" {
+			u.fail("Request.transferError: statement is not `if t, ok := X.(TransferError); ok { t.TransferError(%s) }` over a known object at %s: %q",
+				errName, pi.pos(st), txt)
+			continue
+		}
+		told[field] = true
+	}
+	if !guard {
+		u.fail("Request.transferError: does not start with `if %s == nil { return }` (a session that ends without an error must tell nobody) at %s", errName, pi.pos(fd))
+	}
+	var parts []string
+	for _, f := range []string{"readerAt", "writerAt", "writerAtReaderAt", "listerAt"} {
+		if told[f] {
+			parts = append(parts, kindOf[f])
+		}
+	}
+	return "[" + strings.Join(parts, ", ") + "]"
+}
+
+// ahUseKindChecked: in packetWorker's `case hasHandle`, every `<request>.call(…)` sits in the else of an if-chain one
+// of whose earlier conditions is `!<request>.servesPacket(pkt)` (true), or none does and servesPacket is not
+// mentioned (false).  Anything in between is a failure (and false).
+func ahUseKindChecked(pi *pkgInfo, u *unit) bool {
+	fd := pi.funcDecl("RequestServer.packetWorker")
+	if fd == nil || fd.Body == nil {
+		return false // already reported by body()
+	}
+	var clause *ast.CaseClause
+	bound := ""
+	ast.Inspect(fd.Body, func(n ast.Node) bool {
+		ts, ok := n.(*ast.TypeSwitchStmt)
+		if !ok || clause != nil {
+			return clause == nil
+		}
+		for _, c := range ts.Body.List {
+			cc := c.(*ast.CaseClause)
+			for _, e := range cc.List {
+				if typeName(e) == "hasHandle" {
+					if len(cc.List) != 1 {
+						u.fail("packetWorker: `case hasHandle` shares its clause with other types at %s", pi.pos(cc))
+					}
+					clause = cc
+					if as, ok := ts.Assign.(*ast.AssignStmt); ok && len(as.Lhs) == 1 {
+						bound = pi.nodeText(as.Lhs[0])
+					}
+					return false
+				}
+			}
+		}
+		return true
+	})
+	if clause == nil {
+		u.fail("packetWorker: no `case hasHandle` clause")
+		return false
+	}
+	calls, guarded := 0, 0
+	var walk func(list []ast.Stmt, negs []string)
+	var walkStmt func(s ast.Stmt, negs []string)
+	countCalls := func(n ast.Node, negs []string) {
+		ast.Inspect(n, func(m ast.Node) bool {
+			if _, isLit := m.(*ast.FuncLit); isLit {
+				return false
+			}
+			c, ok := m.(*ast.CallExpr)
+			if !ok {
+				return true
+			}
+			fn := exprString(c.Fun)
+			if strings.HasSuffix(fn, ".call") {
+				calls++
+				req := strings.TrimSuffix(fn, ".call")
+				for _, g := range negs {
+					if g == "!"+req+".servesPacket("+bound+")" {
+						guarded++
+						break
+					}
+				}
+			}
+			return true
+		})
+	}
+	walkStmt = func(s ast.Stmt, negs []string) {
+		switch t := s.(type) {
+		case *ast.BlockStmt:
+			walk(t.List, negs)
+		case *ast.IfStmt:
+			if t.Init != nil {
+				countCalls(t.Init, negs)
+			}
+			countCalls(t.Cond, negs)
+			walk(t.Body.List, negs) // inside the then-branch the condition holds: no new refusal
+			if t.Else != nil {
+				walkStmt(t.Else, append(append([]string{}, negs...), pi.nodeText(t.Cond)))
+			}
+		default:
+			countCalls(s, negs)
+		}
+	}
+	walk = func(list []ast.Stmt, negs []string) {
+		for _, s := range list {
+			walkStmt(s, negs)
+		}
+	}
+	walk(clause.Body, nil)
+	mentions := strings.Contains(pi.nodeText(clause), ".servesPacket(")
+	switch {
+	case calls == 0:
+		u.fail("packetWorker: `case hasHandle` has no request.call at %s", pi.pos(clause))
+		return false
+	case guarded == calls:
+		return true
+	case guarded == 0 && !mentions:
+		return false
+	default:
+		u.fail("packetWorker: `case hasHandle`: servesPacket is tested but %d of %d request.call sites are not in the else of `!request.servesPacket(%s)` at %s",
+			calls-guarded, calls, bound, pi.pos(clause))
+		return false
+	}
 }
